@@ -39,7 +39,7 @@ ASSUMPTIONS = [
   'module paths are taken from Module.path (naming is C02 territory); the check is that the key is the stated function of (seed, stream, path, count)',
   'distinctness is demanded modulo the derivation\'s own 32-bit hash truncation: positions whose model hashes coincide are counted in a probe and skipped',
 ]
-PROBES = ['nnx_runs', 'linen_runs', 'missing_stream_default', 'split_ctx_raises', 'restore_resumes', 'reseed', 'jit_draw', 'vmap_draw', 'clone_predicted_duplicate', 'linen_fallback_params', 'separator_on', 'separator_off', 'edit_invariance_checked', 'hash_collision_skipped', 'init_keys_checked', 'linen_jit_child', 'linen_method_runs', 'plain_and_jitted_method_share_child', 'reseed_several_same_name', 'linen_loop_runs', 'linen_attr_runs', 'draws_in_loop_predicate_and_body']
+PROBES = ['attr_cold_class_compared', 'nnx_runs', 'linen_runs', 'missing_stream_default', 'split_ctx_raises', 'restore_resumes', 'reseed', 'jit_draw', 'vmap_draw', 'clone_predicted_duplicate', 'linen_fallback_params', 'separator_on', 'separator_off', 'edit_invariance_checked', 'hash_collision_skipped', 'init_keys_checked', 'linen_jit_child', 'linen_method_runs', 'plain_and_jitted_method_share_child', 'reseed_several_same_name', 'linen_loop_runs', 'linen_attr_runs', 'draws_in_loop_predicate_and_body']
 
 
 def setup_worker(w, tier):
@@ -618,9 +618,9 @@ class MethodsRun:
 ATTR_CLS = {}
 
 
-def attr_classes(n, lift, sep):
+def attr_classes(n, lift, sep, cold=False):
   key = (n, lift, sep)
-  if key in ATTR_CLS:
+  if key in ATTR_CLS and not cold:
     return ATTR_CLS[key]
 
   class Noise(nn.Module):
@@ -642,9 +642,13 @@ def attr_classes(n, lift, sep):
     @nn.compact
     def __call__(self):
       kids = [Noise(name=f'kid{i}') for i in range(n)]
-      return U(*kids)(self.order)
+      out = U(*kids)(self.order)
+      # ... and the caller goes on drawing from every child after the lifted call: these draws continue where the calls
+      # inside left off, whatever `order` (a static argument of the lifted function) an EARLIER use of the class had
+      return out + [kid() for kid in kids]
 
-  ATTR_CLS[key] = Top
+  if not cold:
+    ATTR_CLS[key] = Top
   return Top
 
 
@@ -667,8 +671,16 @@ class AttrRun:
       outs.append([np.asarray(x).tobytes() for x in out])
     if outs[0] != outs[1]:
       raise Violation('keys-not-deterministic', 'attribute-module program: the same program with the same seed drew different keys on its second run')
+    if k['lift'] != 'plain':
+      # the process-lived class has a history (other `order`s, i.e. other static arguments, in earlier runs of this
+      # process); a class built just now has none: same program, same seed -> same keys
+      cold = attr_classes(k['n'], k['lift'], k['separator'], cold=True)(order=order).apply({}, rngs={'noise': jax.random.key(70 + k['seed'])})
+      if [np.asarray(x).tobytes() for x in cold] != outs[0]:
+        raise Violation('keys-depend-on-history', f'attribute-module program lifted with {k["lift"]!r}, order {list(order)}: the keys differ from those of a freshly built class (the lifted function was used with another static argument earlier in this process)')
+      self.res.probe('attr_cold_class_compared')
     seen = {}
     counts = {}
+    order = order + tuple(range(k['n']))  # the draws made by the caller after the lifted call, one per child
     for pos, (i, kb) in enumerate(zip(order, outs[0])):
       c = counts[i] = counts.get(i, 0) + 1
       if kb in seen:
